@@ -299,6 +299,12 @@ def worldOp1 (st : Option World) (op : String) (args tr : List String) : Option 
       let (w, s) := tail (srvConn w si evs)
       (some w, "srvconn" ++ s)
     | _, _ => (some w, "bad-op")
+  | "srvnext", [name, n], some w =>
+    match srvIdxW w name, n.toNat? with
+    | some si, some n =>
+      if n > 256 then (some w, "bad-op") else
+      let (w, s) := tail (updSrv w si fun s => { s with nextid := n }); (some w, "ok" ++ s)
+    | _, _ => (some w, "bad-op")
   | "rmserver", [name], some w =>
     match srvIdxW w name with
     | some si => let (w, s) := tail (rmserver w si); (some w, "gone" ++ s)
@@ -498,6 +504,7 @@ def opsOf (w : World) (op : String) (args tr : List String) : Option (List World
   | "tick", [n] => n.toNat?.map fun n => [.tick n]
   | "reset", [name] => (srvIdxW w name).map fun si => [.reset si]
   | "rmserver", [name] => (srvIdxW w name).map fun si => [.rmserver si]
+  | "srvnext", [name, n] => (match srvIdxW w name, n.toNat? with | some si, some n => some [.srvnext si n] | _, _ => none)
   | "srvconn", name :: evs => (match srvIdxW w name, parseEvs evs with | some si, some evs => some [orc, .srvconn si evs] | _, _ => none)
   | "srvstate", [name, stt, lost] =>
     (match srvIdxW w name, stt.toNat?, lost.toNat? with | some si, some a, some b => some [.srvstate si a b] | _, _, _ => none)
